@@ -97,17 +97,25 @@ ANCHORS = [
     "txtorcon.controller:connect",
 ]
 FLOORS = {
-    "quick": {"evaluations": 1500, "listen_calls": 1500, "listeners_checked_loopback": 1000, "mappings_compared": 800,
-              "not_fired_checks": 1500, "gethost_compared": 150, "stop_checked": 150, "leak_checks_after_failure": 800,
-              "refusals_before_start_checked": 30, "fault:close-on-line": 200, "fault:close-after-reply": 200,
-              "reach:txtorcon.endpoints:TCPHiddenServiceEndpoint.listen": 1500,
-              "reach:txtorcon.endpoints:TCPHiddenServiceEndpointParser.parseStreamServer": 100,
-              "reach:txtorcon.controller:connect": 50},
-    "thorough": {"evaluations": 8000, "listen_calls": 8000, "listeners_checked_loopback": 5000, "mappings_compared": 4000,
-                 "not_fired_checks": 8000, "gethost_compared": 600, "stop_checked": 600, "leak_checks_after_failure": 4000,
-                 "refusals_before_start_checked": 60, "fault:close-on-line": 1500, "fault:close-after-reply": 1500,
-                 "random_cases": 500,
-                 "reach:txtorcon.endpoints:TCPHiddenServiceEndpoint.listen": 8000},
+    "quick": {"evaluations": 1400, "listen_calls": 1400, "listeners_checked_loopback": 1200, "mappings_compared": 800,
+              "not_fired_checks": 4500, "gethost_compared": 180, "stop_checked": 180, "leak_checks_after_failure": 1200,
+              "failure_errors_compared": 1000, "refusals_before_start_checked": 10, "fault:close-on-line": 300,
+              "fault:close-after-reply": 300, "fault:reject": 120, "fault:uploads-failed": 180, "fault:bind": 90, "fault:config": 40,
+              "route:ctor": 200, "route:tor": 140, "route:str-system": 80, "route:str-global": 45,
+              "reach:txtorcon.endpoints:TCPHiddenServiceEndpoint.listen": 1400,
+              "reach:txtorcon.endpoints:TorOnionListeningPort.stopListening": 180,
+              "reach:txtorcon.endpoints:TCPHiddenServiceEndpointParser.parseStreamServer": 250,
+              "reach:txtorcon.controller:connect": 150},
+    "thorough": {"evaluations": 4500, "listen_calls": 4500, "listeners_checked_loopback": 3500, "mappings_compared": 2500,
+                 "not_fired_checks": 14000, "gethost_compared": 500, "stop_checked": 500, "leak_checks_after_failure": 3500,
+                 "failure_errors_compared": 3000, "refusals_before_start_checked": 10, "fault:close-on-line": 1200,
+                 "fault:close-after-reply": 1200, "fault:reject": 300, "fault:uploads-failed": 450, "fault:bind": 250, "fault:config": 100,
+                 "random_cases": 1500,
+                 "route:ctor": 400, "route:tor": 300, "route:str-system": 300, "route:str-global": 100,
+                 "reach:txtorcon.endpoints:TCPHiddenServiceEndpoint.listen": 4500,
+                 "reach:txtorcon.endpoints:TorOnionListeningPort.stopListening": 500,
+                 "reach:txtorcon.endpoints:TCPHiddenServiceEndpointParser.parseStreamServer": 800,
+                 "reach:txtorcon.controller:connect": 500},
 }
 
 ROUTES = ("ctor", "ctor-deferred", "ctor-lazy", "tor", "tor-lazy", "str-system", "str-system-unix", "str-global", "str-global-lazy")
@@ -224,10 +232,14 @@ def invalid_cases():
                  "str:unknown-keyword"):
         for route in ("str-system", "str-global"):
             out.append({"invalid": name, "route": route})
-    for i, c in enumerate(out):
-        c["public_port"] = PUBLIC_PORTS[i % len(PUBLIC_PORTS)]
-        c["first_port"] = FIRST_PORTS[i % len(FIRST_PORTS)]
-    return out
+    res = []
+    for v in range(3):
+        for i, c in enumerate(out):
+            c = dict(c)
+            c["public_port"] = PUBLIC_PORTS[(i + 2 * v) % len(PUBLIC_PORTS)]
+            c["first_port"] = FIRST_PORTS[(i + v) % len(FIRST_PORTS)]
+            res.append(c)
+    return res
 
 
 # ---------------------------------------------------------------------------
@@ -946,15 +958,28 @@ def failing_step(w):
     return "other"
 
 
+def _norm_target(public, target):
+    """(host, port) a Target means to Tor: absent = 127.0.0.1:<virtual port>, bare port = 127.0.0.1:port"""
+    if target is None:
+        return ("127.0.0.1", public)
+    try:
+        t = AO.parse_target(target)
+    except AO.AddOnionError:
+        return (target, None)
+    if t[0] != "tcp":
+        return (target, None)
+    return (t[1] or "127.0.0.1", t[2])
+
+
 def mapping_of(w, line):
-    """[(public, target-text)] the creating command asks for, for this endpoint's service; None if undecodable"""
+    """[(public, (host, port))] the creating command asks for, for this endpoint's service; None if undecodable"""
     word, _, rest = line.partition(" ")
     if word.upper() == "ADD_ONION":
         try:
             a = AO.parse_add_onion(rest)
         except AO.AddOnionError:
             return None
-        return [(p, t) for (p, t) in a.ports]
+        return [(p, _norm_target(p, t)) for (p, t) in a.ports]
     try:
         items = kvline.parse(rest)
     except kvline.KvError:
@@ -970,8 +995,8 @@ def mapping_of(w, line):
                 out = []
         elif kl == "hiddenserviceport" and cur is not None and os.path.realpath(cur) == want:
             toks = (v or "").split()
-            if len(toks) == 2 and toks[0].isdigit():
-                out.append((int(toks[0]), toks[1]))
+            if 1 <= len(toks) <= 2 and toks[0].isdigit():
+                out.append((int(toks[0]), _norm_target(int(toks[0]), toks[1] if len(toks) == 2 else None)))
             else:
                 out.append((v, None))
     return out
@@ -1063,7 +1088,7 @@ def judge(w, rec, case):
             rec.count("creating_command_undecodable")
             continue
         rec.count("mappings_compared")
-        want = [(cell["public_port"], "%s:%d" % (lp.interface, lp.port)) for lp in bound[:1]]
+        want = [(cell["public_port"], (lp.interface, lp.port)) for lp in bound[:1]]
         if m != want:
             V("port-mapping-mismatch", kind, {"sent": m, "bound": want, "line": cs["line"][:200]})
         elif (bound[0].interface, bound[0].port) not in cs["open"]:
